@@ -20,6 +20,7 @@ var formatMagic = []string{
 	"\x1d0109501101530003", "0109501101530003\x1d10ABC", "01095011015300031714070410AB\x1d21X", "\x1d", "\x1d\x1d", "A\x1dB", "1\x1d2", "\x1e", "\x04", "\x1c",
 	"ñ0109501101530003", "ñ", "ññ", "12ñ34", "ò1", "Aó", "ôôA",
 	"\\000026text", "\\000003", "\\000899", "\\\\000026", "]E0", "\\", "\\\\",
+	"($)", "(%)", "(/)", "(+)", "COST($)5", "LOT(+)7", "[FNC1]", "{FNC1}", "<FNC1>", "<GS>", "^FNC1", "^029", "~1", "~d029", "~029", "\\F", "\\x1d", "\\n", "%1D", "&#29;", "{GS}", "[)>",
 	"*TEXT*", "*", "**", "*A", "A*", "%U", "$A", "+A", "/A", "%", "$", "+", "/", "%V", "+A+B", "100%", "A+B", "-.", ". $/+%",
 	"\x93\x5f\xe4\xaa", "\x88\x9f", "\xe7\x82\xb9\xe8\x8c\x97", "\x82\xa0",
 	" lead", "trail ", "  ", "\tTAB", "line\n", "line\r\n", "\r", "\n", "a\x00b", "\x00\x00", "A ", " A ",
